@@ -240,6 +240,14 @@ def arg_honoured(chk, entry):
                 src = v.body
                 if isinstance(src, ast.Attribute) and isinstance(src.value, ast.Name) and src.value.id == "self" and p in entry.params:
                     resolved[src.attr] = (p, s)
+        # the same resolution written as a block:  if p is None: p = self.X
+        if isinstance(s, ast.If) and isinstance(s.test, ast.Compare) and isinstance(s.test.left, ast.Name) and isinstance(s.test.ops[0], ast.Is) \
+                and isinstance(s.test.comparators[0], ast.Constant) and s.test.comparators[0].value is None and s.test.left.id in entry.params and not s.orelse:
+            p = s.test.left.id
+            for b in s.body:
+                if isinstance(b, ast.Assign) and len(b.targets) == 1 and isinstance(b.targets[0], ast.Name) and b.targets[0].id == p \
+                        and isinstance(b.value, ast.Attribute) and isinstance(b.value.value, ast.Name) and b.value.value.id == "self":
+                    resolved[b.value.attr] = (p, b)
     for attr, (p, s) in resolved.items():
         bad = [n for n in ast.walk(entry.node) if isinstance(n, ast.Attribute) and n.attr == attr and isinstance(n.value, ast.Name)
                and n.value.id == "self" and n.lineno > s.lineno]
